@@ -79,12 +79,16 @@ func (osf *OSTypeFn) PathSeparator() uint8 {
 // SetOSType sets the operating system Type.
 // If the OS type can't be changed it returns an error.
 func (osf *OSTypeFn) SetOSType(osType OSType) error {
+	var err error
+
 	if osType == OsUnknown {
 		osType = CurrentOSType()
 	}
 
-	if BuildFeatures()&FeatSetOSType != 0 && osType != CurrentOSType() {
-		return ErrSetOSType
+	if BuildFeatures()&FeatSetOSType == 0 && osType != CurrentOSType() {
+		// OS type selection is not enabled at build time: the type of the host is kept.
+		err = ErrSetOSType
+		osType = CurrentOSType()
 	}
 
 	osf.osType = osType
@@ -96,5 +100,5 @@ func (osf *OSTypeFn) SetOSType(osType OSType) error {
 
 	osf.pathSeparator = sep
 
-	return nil
+	return err
 }
